@@ -7,6 +7,7 @@
 // with probability 1 or 1/2).  The general path is the executable reference
 // model for the shortcut: the two observation strings must be equal.
 #include "plan.h"
+#include "refurl.h"
 
 using namespace sim;
 
@@ -59,9 +60,52 @@ static std::string gen_in_path(Rng& r) {
   if (o.empty()) o = "/";
   return o;
 }
+// Pattern and input built from the SAME literals, then (half of the time) one character of the input flipped in bit
+// 0x20: letter case, or the punctuation partner (^~ [{ ]} @`).  Every component of such a pattern is a bare
+// literal, i.e. exactly what the EXACT_MATCH shortcut is chosen for; the input either matches or misses by one
+// character, which uncorrelated generation almost never produces.
+static Op gen_correlated_pattern_op(Rng& r) {
+  Op op;
+  op.kind = OP_PATTERN;
+  op.args.assign(18, std::nullopt);
+  std::string path, search, hash;
+  int n = r.range(1, 2);
+  for (int i = 0; i < n; i++) path += std::string("/") + pick(r, kLit);
+  if (r.chance(1, 2)) search = pick(r, kLit);
+  if (r.chance(1, 3)) hash = pick(r, kLit);
+  bool ic = r.chance(1, 2);
+  std::string host = pickl(r, {"example.com", "Example.COM", "sub.example.com"});
+  int ptype = r.chance(1, 2) ? 1 : 0;
+  if (ptype == 1) {
+    op.args[5] = path;
+    if (!search.empty()) op.args[6] = search;
+    if (!hash.empty()) op.args[7] = hash;
+    if (r.chance(1, 2)) op.args[3] = host;
+    if (r.chance(1, 3)) op.args[0] = "https";
+  } else {
+    op.args[0] = "https://" + host + path + (search.empty() ? "" : "?" + search) + (hash.empty() ? "" : "#" + hash);
+  }
+  std::string tail = path + (search.empty() ? "" : "?" + search) + (hash.empty() ? "" : "#" + hash);
+  if (r.chance(1, 2)) {
+    std::vector<size_t> cand;
+    for (size_t i = 1; i < tail.size(); i++) {
+      unsigned char c = (unsigned char)tail[i];
+      if (c >= 0x40 && c < 0x7f && c != '\\' && c != '|' && c != '?' && c != '#' && c != '/') cand.push_back(i);
+    }
+    if (!cand.empty()) {
+      size_t pos = cand[r.below(uint32_t(cand.size()))];
+      tail[pos] = char(tail[pos] ^ 0x20);
+    }
+  }
+  op.args[9] = "https://" + std::string(r.chance(1, 4) ? "EXAMPLE.com" : "example.com") + tail;
+  op.sub = uint8_t((ic ? 1 : 0) | (ptype << 1) | (1 << 2));
+  return op;
+}
+
 static Op gen_pattern_op(Rng& r, bool with_input) {
   auto& c = corpus();
   Op op;
+  if (with_input && r.chance(1, 4)) return gen_correlated_pattern_op(r);
   if (!c.patterns.empty() && r.chance(1, 3)) {
     op = c.patterns[r.below(uint32_t(c.patterns.size()))];
     if (!with_input) {
@@ -429,6 +473,46 @@ static Result execute(const Plan& p, Stats& st) {
       res.detail = "step " + std::to_string(step) + " " + (step < ops.size() ? ops[step].pretty() : "") +
                    " shipped={" + pretty_snap(sa) + "} declined(" + fired_sites + ")={" + pretty_snap(sb) + "}";
       return res;
+    }
+  }
+  if (p.property == "C01" && !ops.empty() && ops[0].kind == OP_PARSE && !p.cfg.count("nomodel")) {
+    // Reference-model oracle (sim/refurl.h): the first step of every history is a parse [with base]; success/failure,
+    // href and the nine component getters must be what the Standard's basic URL parser and serialiser produce.
+    const Op& op = ops[0];
+    std::string in = op.args.size() > 0 && op.args[0] ? *op.args[0] : std::string();
+    std::string want;
+    bool applicable = valid_utf8(in) && (op.args.size() < 2 || !op.args[1] || valid_utf8(*op.args[1]));
+    if (applicable) {
+      std::optional<refurl::Url> mb, mu;
+      if (op.args.size() > 1 && op.args[1]) {
+        mb = refurl::parse(*op.args[1], nullptr);
+        if (!mb) want = "F|base";
+        else mu = refurl::parse(in, &*mb);
+      } else {
+        mu = refurl::parse(in, nullptr);
+      }
+      if (want.empty()) want = mu ? "K|" + refurl::getters(*mu) : std::string("F|-");
+      st.add("model.parses_checked");
+      if (mu) st.add("model.parses_successful");
+      for (int ut = 0; ut < 2; ut++) {
+        std::string got = A[ut].substr(0, A[ut].find('\x1e'));
+        if (got.size() > 2 && got[0] == 'K') {  // keep status + href + nine getters (the first ten fields)
+          size_t pos = 0;
+          for (int k = 0; k < 10 && pos != std::string::npos; k++) {
+            pos = got.find('\x1f', pos);
+            if (pos != std::string::npos) pos++;
+          }
+          if (pos != std::string::npos) got.resize(pos);
+        }
+        if (got != want) {
+          res.violation = true;
+          res.vclass = "differs-from-reference-model";
+          res.sig = std::string(ut == 0 ? "url" : "url_aggregator") + (want[0] == 'F' ? ":model-fails" : (got[0] == 'F' ? ":model-succeeds" : ":getters"));
+          res.detail = op.pretty() + " returned {" + pretty_snap(got).substr(0, 400) + "} but the reference model of the URL Standard gives {" +
+                       pretty_snap(want).substr(0, 400) + "}";
+          return res;
+        }
+      }
     }
   }
   if (p.property == "C14" && !ops.empty()) {
